@@ -161,9 +161,22 @@ impl Stream for SplitPrograms
 			}
 			if !r.stderr.is_empty()
 			{
+				let err = String::from_utf8_lossy(&r.stderr).to_string();
+				// class of the tool's complaint, without positions
+				let class: String = err
+					.split("error: ")
+					.nth(1)
+					.unwrap_or("?")
+					.lines()
+					.next()
+					.unwrap_or("?")
+					.chars()
+					.map(|ch| if ch.is_ascii_digit() { '#' } else { ch })
+					.take(70)
+					.collect();
 				out.fail(
-					"linked program cannot be executed",
-					json!({"files": files_json(&ordered), "order": order, "stderr": String::from_utf8_lossy(&r.stderr).chars().take(500).collect::<String>()}),
+					format!("linked program cannot be executed: {}", class),
+					json!({"files": files_json(&ordered), "order": order, "stderr": err.chars().take(500).collect::<String>()}),
 				);
 				break;
 			}
